@@ -67,7 +67,7 @@ let dcap = z_of_int 65536
 let pcap_i = 4096
 let pcap = z_of_int pcap_i
 let wfuel = nat_of_int 40
-let gen_T = "1099511627776"
+let gen_T = "1048576"
 
 (* a declared length beyond the walker's cap: the tree is not complete *)
 let rec small (t : tree) : bool =
